@@ -261,6 +261,12 @@ def witness_trees(gname: str = "lang") -> List[Any]:
         progs = ["<a/>", "<b/>", "<a>x</a>", "<a>y</b>", "<b><a/></b>", "<a><b/>x</a>", "<a><a/><b/></b>",
                  "<b><a>x</a><b/></a>", "<a><b><a/></b></a>", "<b><b/><b>y</b>x</b>"]
         gram = vlib.XMLISH_GRAMMAR
+    elif gname == "row":
+        import itertools as _it
+        progs = ["x", "y"] + [",".join(c) for c in (("x",) * 12, ("y",) * 12)] + \
+                [",".join("x" if i == k else "y" for i in range(12)) for k in range(12)] + \
+                [",".join("y" if i == k else "x" for i in range(12)) for k in range(12)]
+        gram = ROW_GRAMMAR
     else:
         progs = ['k"v"', 'q"w"', "k\\v", "q\\'", "k\nw", "{v}", "{'}", "[w]", "k\tv", 'k"\'"']
         gram = ESC_GRAMMAR
@@ -276,10 +282,13 @@ def verdict(formula: L.Formula, tree, gname: str = "lang") -> str:
         return "raised %s: %s" % (type(e).__name__, str(e)[:120])
 
 
-def find_witness(f1: L.Formula, f2: L.Formula, negated: bool, limit_s: float = 60.0, gname: str = "lang") -> Optional[Dict[str, Any]]:
+def find_witness(f1: L.Formula, f2: L.Formula, negated: bool, limit_s: float = 60.0, gname: str = "lang",
+                 tree_filter=None) -> Optional[Dict[str, Any]]:
     """A tree where verdict(f1) != verdict(f2) (or, if negated, where they are equal / not opposite)."""
     t0 = time.time()
     for t in witness_trees(gname):
+        if tree_filter is not None and not tree_filter(t):
+            continue
         if time.time() - t0 > limit_s:
             break
         v1, v2 = verdict(f1, t, gname), verdict(f2, t, gname)
@@ -476,6 +485,12 @@ def sugar_texts(tier: str) -> List[Tuple[str, str]]:
         '<start> = "a := 1"',
         'exists <stmt> s in start: s = "a := 1"',
         'const t: <start>; forall <var> v in t: v = "a"',
+        # match expressions that bind no variable (they still restrict the quantifier's domain)
+        'forall <assgn> a="<var> := <digit>" in start: (= a "a := 1")',
+        'exists <assgn> a="<var> := <var>" in start: (str.prefixof "b" a)',
+        'forall <stmt> s="<assgn> ; <stmt>" in start: (> (str.len s) 6)',
+        'exists <rhs> r="<digit>" in start: (= r "7")',
+        'forall <assgn> a="<var> := <rhs>" in start: exists <var> v in a: (= v "a")',
     ]
     T += [("lang", t) for t in lang]
     xml = [
@@ -641,3 +656,161 @@ def classify_unparse_failure(F: L.Formula, U: str = "") -> str:
     except Exception:
         pass
     return "+".join(sorted(kinds)) or "other"
+
+
+# --------------------------------------------------------------------------
+# C08: (sugared, hand-expanded core) pairs, generated from paired templates that follow the
+# "Simplified Syntax" section of islaspec.rst rule by rule.
+
+ROW_GRAMMAR = {
+    "<start>": ["<row>"],
+    "<row>": [",".join(["<cell>"] * 12), "<cell>"],
+    "<cell>": ["x", "y"],
+}
+GRAMMARS["row"] = ROW_GRAMMAR
+
+
+def c08_pairs(tier: str) -> List[Dict[str, str]]:
+    P: List[Dict[str, str]] = []
+
+    def add(kind, sugar, core, g="lang"):
+        P.append(dict(kind=kind, grammar=g, sugar=sugar, core=core))
+
+    # --- omitted `in start`
+    for q in ("forall", "exists"):
+        add("in-start", '%s <assgn> a: (= a "a := 1")' % q, '%s <assgn> a in start: (= a "a := 1")' % q)
+        add("in-start", '%s <assgn> a="{<var> l} := <rhs>": (= l "a")' % q, '%s <assgn> a="{<var> l} := <rhs>" in start: (= l "a")' % q)
+        add("in-start", '%s <assgn> a: exists <var> v in a: (= v "a")' % q, '%s <assgn> a in start: exists <var> v in a: (= v "a")' % q)
+    # --- omitted bound variable names
+    add("names", 'forall <assgn>: exists <var> in <assgn>: <var> = "a"', 'forall <assgn> assgn in start: exists <var> var in assgn: (= var "a")')
+    add("names", 'exists <assgn>: <assgn> = "a := b"', 'exists <assgn> assgn in start: (= assgn "a := b")')
+    add("names", 'exists <assgn> in start: forall <var> in <assgn>: <var> = "a"', 'exists <assgn> assgn in start: forall <var> var in assgn: (= var "a")')
+    add("names", 'forall <stmt>: exists <assgn> in <stmt>: exists <digit> in <assgn>: <digit> = "1"',
+        'forall <stmt> s in start: exists <assgn> a in s: exists <digit> d in a: (= d "1")')
+    # --- free nonterminals: closure around the whole formula (documented rule)
+    A = {"v": ['(= <var> "a")', '(= <var> "b")', '(str.prefixof "a" <var>)'], "d": ['(= <digit> "1")', '(< (str.to.int <digit>) 5)'],
+         "r": ['(= <rhs> "1")']}
+    bodies = [
+        ("single", "{v0}"), ("not", "not {v0}"),
+        ("or-same", "{v0} or {v1}"), ("and-same", "{v0} and {v1}"),
+        ("or-independent", "{v0} or {d0}"), ("and-independent", "{v0} and {d0}"),
+        ("or-mixed3", "{v0} or {v1} or {d0}"), ("or-mixed3b", "{d0} or {v0} or {v1}"), ("or-mixed4", "{v0} or {d0} or {v1} or {d1}"),
+        ("and-mixed3", "{v0} and {v1} and {d0}"), ("implies-independent", "{v0} implies {d0}"), ("implies-same", "{v0} implies {v1}"),
+        ("or-of-and", "({v0} and {d0}) or {v1}"), ("and-of-or", "({v0} or {d0}) and {v1}"), ("not-or", "not ({v0} or {d0})"),
+        ("three-types", "{v0} or {d0} or {r0}"), ("xor-independent", "{v0} xor {d0}"), ("iff-same", "{v0} iff {v2}"),
+    ]
+    for name, pat in bodies:
+        fill = {k + str(i): xs[i % len(xs)] for k, xs in A.items() for i in range(3)}
+        sugar = pat.format(**fill)
+        body = sugar.replace("<var>", "var").replace("<digit>", "digit").replace("<rhs>", "rhs")
+        prefix = ""
+        for nt, nm in (("<var>", "var"), ("<digit>", "digit"), ("<rhs>", "rhs")):
+            if nt in sugar:
+                prefix += "forall %s %s in start: " % (nt, nm)
+        add("free-nonterminal/" + name, sugar, prefix + "(" + body + ")")
+    # free nonterminal below an explicit quantifier
+    add("free-nonterminal/under-exists", 'exists <assgn> decl: (before(decl, <assgn>) and (= decl "a := 1"))',
+        'forall <assgn> assgn in start: exists <assgn> decl in start: (before(decl, assgn) and (= decl "a := 1"))')
+    add("free-nonterminal/start", '<start> = "a := 1"', 'forall <start> s in start: (= s "a := 1")')
+    add("free-nonterminal/predicate-arg", 'count(<stmt>, "<assgn>", "2")', 'forall <stmt> s in start: count(s, "<assgn>", "2")')
+    # --- XPath: child axis, chains, descendant axis
+    add("xpath/child", '<assgn>.<var> = "a"', 'forall <assgn> a="{<var> v} := <rhs>" in start: (= v "a")')
+    add("xpath/child2", '<assgn>.<rhs>.<var> = "a"', 'forall <assgn> a="<var> := {<var> v}" in start: (= v "a")')
+    add("xpath/child-alternatives", '<stmt>.<assgn> = "a := 1"',
+        '(forall <stmt> s="{<assgn> a} ; <stmt>" in start: (= a "a := 1")) and (forall <stmt> s="{<assgn> a}" in start: (= a "a := 1"))')
+    add("xpath/two-paths", '<assgn>.<rhs>.<var> = <assgn>.<var>', 'forall <assgn> a="{<var> l} := {<var> r}" in start: (= r l)')
+    add("xpath/bound-var", 'forall <assgn> a: a.<rhs>.<digit> = "1"', 'forall <assgn> a="<var> := {<digit> d}" in start: (= d "1")')
+    add("xpath/bound-var-exists", 'exists <assgn> a: a.<rhs>.<digit> = "1"', 'exists <assgn> a="<var> := {<digit> d}" in start: (= d "1")')
+    add("xpath/descendant", '<assgn>..<var> = "a"', 'forall <assgn> a in start: forall <var> v in a: (= v "a")')
+    add("xpath/descendant2", '<stmt>.<assgn>..<digit> = "1"',
+        '(forall <stmt> s="{<assgn> a} ; <stmt>" in start: forall <digit> d in a: (= d "1")) and (forall <stmt> s="{<assgn> a}" in start: forall <digit> d in a: (= d "1"))')
+    add("xpath/descendant-exists", 'exists <assgn> a: a..<digit> = "1"', 'exists <assgn> a in start: exists <digit> d in a: (= d "1")' if False else
+        'exists <assgn> a in start: forall <digit> d in a: (= d "1")')
+    add("xpath/descendant-forall-bound", 'forall <assgn> a: a..<digit> = "1"', 'forall <assgn> a in start: forall <digit> d in a: (= d "1")')
+    add("xpath/def-use", 'exists <assgn> decl: (before(decl, <assgn>) and <assgn>.<rhs>.<var> = decl.<var>)',
+        'forall <assgn> assgn="<var> := {<var> rhs}" in start: exists <assgn> decl="{<var> lhs} := <rhs>" in start: (before(decl, assgn) and (= rhs lhs))')
+    # --- XPath position [i] (grammar with twelve <cell> children)
+    for k in range(1, 13):
+        mexpr = ",".join("{<cell> c}" if i == k else "<cell>" for i in range(1, 13))
+        core = 'forall <row> r="%s" in start: (= c "x")' % mexpr
+        if k == 1:   # the single-cell alternative also has a first <cell>
+            core = '(%s) and (forall <row> r="{<cell> c}" in start: (= c "x"))' % core
+        add("xpath/index", '<row>.<cell>[%d] = "x"' % k, core, g="row")
+    add("xpath/index-default", '<row>.<cell> = "x"',
+        '(forall <row> r="%s" in start: (= c "x")) and (forall <row> r="{<cell> c}" in start: (= c "x"))' % ",".join(["{<cell> c}"] + ["<cell>"] * 11), g="row")
+    add("xpath/index-xml", '<tree>.<id>[2] = "a"', 'forall <tree> t="<<id>><inner></{<id> c}>" in start: (= c "a")', g="xml")
+    add("xpath/index-xml-1", '<tree>.<id>[1] = "a"',
+        '(forall <tree> t="<{<id> o}><inner></<id>>" in start: (= o "a")) and (forall <tree> t="<{<id> o}/>" in start: (= o "a"))', g="xml")
+    # --- generalized SMT syntax: prefix, infix, precedence, negative literals
+    smt = [
+        ('str.len(v) > 1', '(> (str.len v) 1)'), ('str.len(v) >= 1', '(>= (str.len v) 1)'), ('v = "a"', '(= v "a")'),
+        ('str.to.int(d) + 1 = 5', '(= (+ (str.to.int d) 1) 5)'), ('17 + str.to.int(d) = 20', '(= (+ 17 (str.to.int d)) 20)'),
+        ('str.to.int(d) * 2 + 1 = 5', '(= (+ (* (str.to.int d) 2) 1) 5)'), ('1 + str.to.int(d) * 2 = 5', '(= (+ 1 (* (str.to.int d) 2)) 5)'),
+        ('str.to.int(d) - 1 - 1 = 0', '(= (- (- (str.to.int d) 1) 1) 0)'), ('str.to.int(d) mod 2 = 1', '(= (mod (str.to.int d) 2) 1)'),
+        ('str.to.int(d) div 2 = 1', '(= (div (str.to.int d) 2) 1)'), ('str.to.int(d) > -1', '(> (str.to.int d) (- 1))'),
+        ('str.to.int(d) + -1 = 0', '(= (+ (str.to.int d) (- 1)) 0)'), ('str.prefixof("a", v)', '(str.prefixof "a" v)'),
+        ('str.in_re(v, re.+(re.range("a", "c")))', '(str.in_re v (re.+ (re.range "a" "c")))'),
+        ('v str.++ "x" = "ax"', '(= (str.++ v "x") "ax")'), ('str.len(v str.++ d) = 2', '(= (str.len (str.++ v d)) 2)'),
+        ('(str.to.int(d) < 5 and str.len(v) = 1)', '((< (str.to.int d) 5) and (= (str.len v) 1))'),
+        ('str.substr(v, 0, 1) = "a"', '(= (str.substr v 0 1) "a")'), ('(= v "a")', '(= v "a")'),
+    ]
+    for s_, c_ in smt:
+        add("smt-syntax", "forall <var> v in start: exists <digit> d in start: %s" % s_,
+            "forall <var> v in start: exists <digit> d in start: %s" % c_)
+    # --- implies / iff / xor by their definitions
+    X, Y = '(= v "a")', '(= d "1")'
+    pre = "forall <var> v in start: forall <digit> d in start: "
+    add("connective/implies", pre + "(%s implies %s)" % (X, Y), pre + "(not %s or %s)" % (X, Y))
+    add("connective/iff", pre + "(%s iff %s)" % (X, Y), pre + "((%s and %s) or (not %s and not %s))" % (X, Y, X, Y))
+    add("connective/xor", pre + "(%s xor %s)" % (X, Y), pre + "((%s and not %s) or (not %s and %s))" % (X, Y, X, Y))
+    add("connective/implies-chain", pre + "(%s implies %s implies %s)" % (X, Y, X), pre + "(not %s or (not %s or %s))" % (X, Y, X) if False else
+        pre + "(not (not %s or %s) or %s)" % (X, Y, X))
+    add("connective/precedence", pre + "(%s or %s and not %s)" % (X, Y, X), pre + "(%s or (%s and (not %s)))" % (X, Y, X))
+    return P
+
+
+def c08_worker(job: Dict[str, str]) -> Dict[str, Any]:
+    import warnings
+    warnings.filterwarnings("ignore")
+    gname = job["grammar"]
+    gram = GRAMMARS[gname]
+    desc = "[%s] %s  ==  %s" % (gname, job["sugar"], job["core"])
+    res: List[Dict[str, Any]] = []
+    try:
+        C = parse(job["core"], gram)
+    except BaseException as e:
+        return dict(job=job, desc=desc, build_error="core text does not parse: %s: %s" % (type(e).__name__, str(e)[:200]), results=[])
+    try:
+        S = parse(job["sugar"], gram)
+    except BaseException as e:
+        res.append(dict(name="sugar-accepted", verdict="violated", key="%s/rejected-%s" % (job["kind"], type(e).__name__), solver_s=0.0,
+                        what="parse_isla rejects the documented simplified form %r: %s: %s" % (job["sugar"], type(e).__name__, str(e)[:160])))
+        return dict(job=job, desc=desc, results=res)
+    enc = fol.Encoder()
+    r = check_equiv(enc, C, S, False, "sugar-equals-core", gname=gname)
+    if r["verdict"] == "violated":
+        r["key"] = "%s/inequivalent" % job["kind"]
+        if job["kind"].startswith("free-nonterminal/"):
+            # Known class: the closure is pushed into conjunctions over independent nonterminals, which only differs from
+            # the documented outermost closure when one of the closed-over nonterminals does not occur in the tree.
+            # Prefer a witness in which every free nonterminal occurs; only without one is it that class.
+            nts = [nt for nt in ("<var>", "<digit>", "<rhs>", "<assgn>", "<stmt>") if nt in job["sugar"]]
+
+            def all_occur(t):
+                labels = {n.value for _, n in t.paths()}
+                return all(nt in labels for nt in nts)
+            w2 = find_witness(C, S, False, gname=gname, tree_filter=all_occur)
+            if w2 is not None:
+                r["witness"] = w2
+            else:
+                r["key"] = "free-nonterminal/closure-split-empty-domain"
+        r["what"] = "simplified form and documented core form evaluate differently: witness %s; parsed sugar: %s" % (r["witness"], str(S)[:300])
+    res.append(r)
+    guard = None
+    if isinstance(C, (L.ForallFormula, L.ExistsFormula)):
+        try:
+            W = type(C)(C.bound_variable, C.in_variable, L.NegatedFormula(C.inner_formula), C.bind_expression)
+            guard = fol.equivalent(enc.enc(S), enc.enc(W), False, 5000)[0]
+        except fol.Unsupported:
+            guard = None
+    return dict(job=job, desc=desc, results=res, guard=guard)
